@@ -6,26 +6,26 @@ import os
 HERE = os.path.dirname(os.path.dirname(os.path.abspath(__file__)))
 
 CHECKS = {
-    "C01": ("exploration", "invariant monitor at quiescent points (cached values read first, compared with input prices, after every operation / completed update / between algos) + snapshot-vs-recorded-row comparison; market-value and fixed-income trees, real tree and paper shadows, both builds", "5.C01"),
+    "C01": ("exploration", "invariant monitor at quiescent points (cached values read first, compared with input prices, after every operation / completed update / between algos) + snapshot-vs-recorded-row comparison + read-free identity over the recorded rows of every date (incl. bankruptcy dates of leveraged runs); market-value and fixed-income trees, real tree and paper shadows, both builds", "5.C01"),
     "C02": ("exploration", "conservation oracle over the recorded event log (trade/adjust wrappers with call-context tags): per-operation and per-date P&L attribution with costs, coupons and carry recomputed by the oracle; op sequences, stock-algo backtests, fixed-income backtests, replayed custom-price trades", "5.C02"),
     "C03": ("exploration", "reference-model monitor: index recurrence re-evaluated after every operation and date with EXTERNAL flows (adjustments issued from outside bt, by call context); pure-flow observations; metamorphic capital-scaling differential", "5.C03"),
-    "C04": ("exploration", "differential fault injection on the future: re-run with perturbed post-cut data, bit-for-bit comparison of recorded frames, trade log and an observation-spy log up to the cut", "5.C04"),
-    "C05": ("exploration", "pre/post-condition monitor around SecurityBase.allocate over a numeric sweep (cost, budget, maximality, close-out, refusal)", "5.C05"),
-    "C06": ("exploration", "post-condition monitor at the exit of Rebalance / RebalanceOverTime calls on random prior portfolios and around every Rebalance call inside generated backtests (targets, closes, cash remainder, proportional spreading via the allocate log)", "5.C06"),
+    "C04": ("exploration", "differential fault injection on the future: re-run with perturbed post-cut data, bit-for-bit comparison of recorded frames, trade log and an observation-spy log up to the cut; cuts also placed right before a blank cell of a price / statistic / target frame gets its first value", "5.C04"),
+    "C05": ("exploration", "pre/post-condition monitor around SecurityBase.allocate over a numeric sweep (cost, budget, maximality, close-out, refusal, zero amount at quoted and unquoted prices)", "5.C05"),
+    "C06": ("exploration", "post-condition monitor at the exit of Rebalance / RebalanceOverTime calls on random prior portfolios and around every Rebalance call inside generated backtests (targets, closes, cash remainder, proportional spreading via the allocate log); same post-condition in notional terms around every Rebalance of fixed-income backtests whose dated targets drop names)", "5.C06"),
     "C07": ("exploration", "ledger reconciliation over recorded rows and the event log; exactly-once matching of every trade to one parent adjustment", "5.C07"),
-    "C08": ("exploration", "idempotence/append-only monitors on raw snapshots under injected redundant updates and reads; deep-copy freshness differential; schedule-injection differential on backtests", "5.C08"),
+    "C08": ("exploration", "idempotence/append-only monitors on raw snapshots under injected redundant updates and reads; deep-copy freshness differential; assembled frames (positions, outlays) vs the securities after a flush by another accessor; schedule-injection differential on backtests", "5.C08"),
     "C09": ("exploration", "differential monitor: nested child index vs the same definition run stand-alone, bit-for-bit per date; parent universe column vs child prices", "5.C09"),
     "C10": ("fault_enumeration", "completion monitor on generated well-formed runs (stock-algo, fixed-income, op-sequence and odd-calendar workloads: bt.run + every report accessor + finiteness scan) and fault injection of nine enumerated ill-formed classes (several variants each) that must raise", "5.C10"),
     "C11": ("exploration", "input-integrity digests before/after, order/interleaving differential from one shared template, cross-process differential over PYTHONHASHSEED values, re-run spy", "5.C11"),
     "C12": ("exploration", "reference-calendar monitor on every row of generated indices (direct calls and spy algos in real backtests); year-boundary grid enumerated", "5.C12"),
     "C13": ("exploration", "reference interpreter vs AlgoStack on the complete truth table of stacks up to length 5, sampled nested programs, spies for temp/perm/run order", "5.C13"),
-    "C14": ("exploration", "reference-set monitor: temp['selected']/temp['stat'] after each selection algo vs an independent recomputation from the raw frame truncated at now", "5.C14"),
-    "C15": ("exploration", "algebraic post-condition monitor on temp['weights'] after each weighting algo (sums, bounds, risk relations, ex-ante volatility, tracking-error trigger)", "5.C15"),
-    "C16": ("exploration", "history + trade-log + spy-algo oracle on leveraged runs with injected price shocks (flag, liquidation, terminality)", "5.C16"),
+    "C14": ("exploration", "reference-set monitor: temp['selected']/temp['stat'] after each selection algo vs an independent recomputation from the raw frame truncated at now; history-independence differential (same algo instances over consecutive dates vs fresh instances)", "5.C14"),
+    "C15": ("exploration", "algebraic post-condition monitor on temp['weights'] after each weighting algo (sums, bounds, risk relations, ex-ante volatility, tracking-error trigger); LimitDeltas also on stale trees", "5.C15"),
+    "C16": ("exploration", "history + trade-log + spy-algo oracle on leveraged runs with injected price shocks (flag, liquidation, terminality); calibrated zero-crossing through swept carry; flag-at-every-completed-update monitor", "5.C16"),
     "C17": ("exploration", "invariant monitor after every fixed-income operation (notional, weights), coupon/cost/sweep/additive-index oracles from the input frames, Rebalance target spies", "5.C17"),
     "C18": ("exploration", "report-vs-history recomputation on finished runs and replay differential through ReplayTransactions", "5.C18"),
     "C19": ("exploration", "structural invariant checks on constructed trees, universe probe algo inside running strategies, lazy-vs-eager differential", "5.C19"),
-    "C20": ("exploration", "risk-aggregation reference, hedge post-condition vs numpy least squares, post-condition wrappers around close/roll algos with the trade log", "5.C20"),
+    "C20": ("exploration", "risk-aggregation reference, hedge post-condition vs numpy least squares, post-condition wrappers around close/roll algos with the trade log (also right after un-flushed quantity trades)", "5.C20"),
 }
 
 NOT_YET = {}
